@@ -49,7 +49,8 @@ PROBES = ['stop_in_event_wait', 'stop_before_first_instruction',
           'stop_as_script_finished', 'stop_after_end_noop',
           'stop_between_instructions', 'follower_ran_complete',
           'rerun_same_object', 'stop_all_cleared_queue', 'stall',
-          'stop_through_front_end', 'stop_during_handover']
+          'stop_through_front_end', 'stop_during_handover',
+          'rerun_as_old_clock_thread_ends']
 WALL_CAP = {'quick': 170, 'thorough': 1700}
 
 TYPES = ('LightSetColor', 'LightSetPower', 'MultiZoneSetColorZones',
@@ -235,7 +236,10 @@ def gen(rng, tier, index):
             'start': [hour, minute, second], 'main': text,
             'followers': followers, 'how': how, 'timing': timing,
             'rerun': rerun, 'bg': bg, 'pre_stop': pre_stop, 'second': second_stop,
-            'other': _follower_text(rng, pop, 5), 'front': front}
+            'other': _follower_text(rng, pop, 5), 'front': front,
+            # start the follow-up run at the very instant the stopped run's
+            # clock thread wakes up for the last time
+            'rerun_at': rng.choice([None, 'clock_wake'])}
 
 
 def shrink(sc):
@@ -614,6 +618,15 @@ def execute(scenario, chooser):
             else:
                 fj = RecJob('other')
                 fj.load_string(sc['other'])
+            if sc.get('rerun_at') == 'clock_wake':
+                cl = [t for t in sim.threads
+                      if t.role == 'clock' and t.state == 'blocked'
+                      and t.block_kind == 'sleep' and t.wake_time is not None]
+                if cl:
+                    w = min(t.wake_time for t in cl)
+                    if w > sim.now:
+                        sim.sleep(w - sim.now)
+                    sim.count('rerun_as_old_clock_thread_ends')
             st['rerun_job'] = fj.jname
             st['rerun_mark'] = sim.next_event()
             jc.add_job(fj, fj.jname)
